@@ -361,6 +361,36 @@ var mutators = []mutator{
 		m.insert(s, mk(first), mk(second))
 		return true
 	}},
+	{"merge-wrapper-chains", "5.3.2", func(m *mctx) bool {
+		// two different object parents, one response name, types that differ in one or more wrappers
+		// (non-null or list, at any depth) over the same named type
+		s := m.pickSet(func(s *gSet) bool {
+			p := (&gen{w: m.w}).possible(s.Parent)
+			return p["Alpha"] && p["Beta"]
+		})
+		if s == nil {
+			return false
+		}
+		kind := rng.Pick(m.r, []string{"sc", "oc"})
+		i := m.r.Intn(len(shapeChains))
+		j := m.r.Intn(len(shapeChains) - 1)
+		if j >= i {
+			j++
+		}
+		mk := func(tn string, k int) *gSel {
+			f := aliased("wc", fmt.Sprintf("%s%d", kind, k))
+			if kind == "oc" {
+				f.Sub = &gSet{Sels: []*gSel{leaf("__typename")}}
+			}
+			return &gSel{Kind: kInline, Cond: tn, Sub: &gSet{Sels: []*gSel{f}}}
+		}
+		if m.r.Chance(1, 2) {
+			m.insert(s, mk("Alpha", i), mk("Beta", j))
+		} else {
+			m.insert(s, mk("Beta", j), mk("Alpha", i))
+		}
+		return true
+	}},
 	{"merge-nested-conflict", "5.3.2", func(m *mctx) bool {
 		s := m.pickSet(func(s *gSet) bool { return m.visibleField(s, "alpha") })
 		if s == nil {
